@@ -9,22 +9,22 @@ let int_of_n (x : n) : int = match x with N0 -> 0 | Npos p -> int_of_pos p
 let rec nat_of_int (i : int) : nat = if i = 0 then O else S (nat_of_int (i - 1))
 let rec int_of_nat (x : nat) : int = match x with O -> 0 | S k -> 1 + int_of_nat k
 
-let bytes_of_hex (s : string) : n list =
+let bytes_of_hex (s : Stdlib.String.t) : n list =
   if s = "-" then [] else begin
-    let l = String.length s / 2 in
-    List.init l (fun i -> n_of_int (int_of_string ("0x" ^ String.sub s (2 * i) 2)))
+    let l = Stdlib.String.length s / 2 in
+    Stdlib.List.init l (fun i -> n_of_int (int_of_string ("0x" ^ Stdlib.String.sub s (2 * i) 2)))
   end
-let hex_of_bytes (bs : n list) : string =
-  if bs = [] then "-" else String.concat "" (List.map (fun b -> Printf.sprintf "%02x" (int_of_n b)) bs)
+let hex_of_bytes (bs : n list) : Stdlib.String.t =
+  if bs = [] then "-" else Stdlib.String.concat "" (Stdlib.List.map (fun b -> Printf.sprintf "%02x" (int_of_n b)) bs)
 
 let show_res f r = match r with Ok a -> f a | Err -> "E" | Panic -> "P"
 
 
-let main (handle : string list -> string) =
+let main (handle : Stdlib.String.t list -> Stdlib.String.t) =
   try
     while true do
       let line = input_line stdin in
-      let toks = List.filter (fun s -> s <> "") (String.split_on_char ' ' line) in
+      let toks = Stdlib.List.filter (fun s -> s <> "") (Stdlib.String.split_on_char ' ' line) in
       print_string (try handle toks with Stack_overflow -> "?stack" | Not_found -> "?notfound" | Failure m -> "?fail:" ^ m);
       print_char '\n'
     done
